@@ -258,6 +258,36 @@ pub fn run(ctx: &Ctx) {
         }
         judge(&fields, big, loc);
     }));
+    // history: one construction must not depend on the ones before it (decoder caches keyed by the
+    // type list, scratch buffers): ALL ordered pairs over the lists of length 1 and an evenly spread
+    // subset of the lists of length 2, both byte orders
+    {
+        let mut lists: Vec<(Vec<Field>, bool)> = vec![];
+        for big in [false, true] {
+            for a in alpha.iter() {
+                lists.push((vec![a.clone()], big));
+            }
+            let step = ((n * n) / 120).max(1);
+            let mut j = 0;
+            while j < n * n {
+                lists.push((vec![alpha[(j % n) as usize].clone(), alpha[(j / n) as usize].clone()], big));
+                j += step;
+            }
+        }
+        let m = lists.len() as u64;
+        let lists = &lists;
+        ctx.run_family(Family::new("c13.history", m * m, format!("ALL ordered pairs (a, b) over {} (field list, byte order) cases (every list of length 1, every {}th of length 2): a is constructed from its exact payload, then b is judged (exact payload, every truncation, trailing bytes) twice on the same thread", m, ((n * n) / 120).max(1)), move |i, loc| {
+            let (a, b) = (&lists[(i / m) as usize], &lists[(i % m) as usize]);
+            let mut data = vec![];
+            for f in &a.0 {
+                encode_field(f, a.1, &mut data);
+            }
+            let types: Vec<TypeInfo> = a.0.iter().enumerate().map(|(k, f)| type_info_flagged(kind_of(f), k, a.0.len())).collect();
+            let _ = catch(|| construct_arguments(if a.1 { Endianness::Big } else { Endianness::Little }, &types, &data).map(|v| v.len()));
+            judge(&b.0, b.1, loc);
+            judge(&b.0, b.1, loc);
+        }).distinct());
+    }
     // every kind x every combination of the type's flags and string coding, alone and after another field
     {
         let kinds = supported_kinds();
